@@ -66,6 +66,20 @@ def body_orch(E, cfg):
             E.check("returned-row-has-the-highest-confidence", And([row.confidence >= c.confidence for c in cands]))
     if cands:
         E.check("candidate-message-lists-every-candidate", len(world.messages) == 1 and len(world.messages[-1].messages) == len(cands))
+    # the coordinator's execute keeps exactly the best candidates that have at least one pair, in query order
+    world.calls = []
+    rows, exc2 = orch.run_execute(world)
+    if exc2 is not None:
+        E.tag("exception-path")
+    else:
+        expected = []
+        for qm in world.queries:
+            world.calls = []
+            best, _ = orch.run_align(world, qm)
+            if best is not None and best.alignedPairs:
+                expected.append(best)
+        E.check("execute-returns-each-query's-best-candidate-iff-it-has-a-pair",
+                len(rows) == len(expected) and all(a is b for a, b in zip(rows, expected)))
     return [[list(k) for k in calls], None if row is None else row.confidence]
 
 
